@@ -13,7 +13,7 @@ import traceback
 
 VERIF = os.path.dirname(os.path.dirname(os.path.abspath(__file__)))
 CONTRACT_MODULES = ['lexer', 'codegen_base', 'parser_actions', 'intermediate', 'symtable', 'compiler',
-                    'writers', 'searchers', 'borrowers', 'readers', 'jsonindex', 'pysnmp_adapt', 'scripts']
+                    'writers', 'searchers', 'borrowers', 'factories', 'readers', 'jsonindex', 'pysnmp_adapt', 'scripts']
 
 
 def load_contracts():
@@ -144,8 +144,10 @@ def run_property(pid, tier, seed, only=None, jobs=None):
         X = None
     if X is not None:
         extras = X.run(pid, tier, seed, world)
-    for cid in skipped:
+    for cid in skipped[:6]:
         print('NOTE %s is verified in the thorough tier only (slow)' % cid)
+    if len(skipped) > 6:
+        print('NOTE ... and %d more contracts verified in the thorough tier only' % (len(skipped) - 6))
     return finish(pid, tier, seed, mine, contracts, reports, extras, known, time.time() - t0)
 
 
